@@ -37,6 +37,25 @@ pub fn run(rep: &mut Report, tier: &str, seed: u64) {
     rep.correspondence = "exec with debug configuration: outcome and graph (incl. the debug attribute values) equal between implementation and model".to_string();
     let n_programs = if tier == "thorough" { 2500 } else { 150 };
     let mut runner = Runner::new("C15");
+    // stanzas whose full-match capture tree-sitter drops (three user captures on the root): whatever such a run does, it does
+    // the same with and without debug attributes
+    for (tsg, src) in [
+        ("(identifier) @_a @_b @_c {\n  node n\n}\n", "x = y\n"),
+        ("(module) @_a @_b @_c {\n  node n\n  node m\n  edge n -> m\n}\n", "pass\n"),
+        ("(identifier) @_a @_b @_c {\n  let u = 1\n}\n(module) @_m {\n  node n\n}\n", "x\n"),
+        ("(assignment left: (identifier) @_a @_b @_c) @_asg {\n  node n\n}\n", "x = 1\n"),
+    ] {
+        let dbg = Some((DBG.0.to_string(), DBG.1.to_string(), DBG.2.to_string()));
+        if let Some(classes) = fixed_case(rep, &mut runner, tsg, src, &[None, dbg]) {
+            // classes: [plain strict, plain lazy, debug strict, debug lazy]
+            for m in 0..2 {
+                if (classes[m] == "ok") != (classes[m + 2] == "ok") {
+                    rep.fail("direct", &format!("C15 {}: debug attributes change whether execution succeeds (full-match capture lost)", if m == 0 { "strict" } else { "lazy" }), true,
+                        json!({"tsg": tsg, "source": src, "plain": classes[m], "debug": classes[m + 2]}));
+                }
+            }
+        }
+    }
     campaign(rep, &mut runner, seed, n_programs, 2, false,
         &|pi, r| Opts { fragment: false, fault_pct: if pi % 5 == 4 { 100 } else { 0 }, max_stanzas: 4, allow_print: false, universal: r.chance(1, 2), probe: false, scoped_heavy: false, keywordish_names: false, static_fault: 0 },
         &mut |rep, runner, case, r, _pi| {
